@@ -14,7 +14,7 @@ var (
 	clauseKinds = []string{"", "", "user", "org", "device", "other", "User", "user", "org", "multi", "kind", "org.2", "a-b"}
 	keyPool     = []string{"a", "b", "c", "u1", "u2", "k/1", "ключ", "key.with.dots", strings.Repeat("L", 150),
 		"ctl\x01\x1b\x7f", "q\"uo\\te\n\t", "tag\U000E0001\u2028", "nul\x00mid", "100%-off %d %s %v%!", "caf\u00e9", "Key-A"}
-	attrNames   = []string{"a", "b", "email", "n", "s", "arr", "obj", "/a~b", "a/b", "d", "v"}
+	attrNames   = []string{"a", "b", "email", "n", "s", "arr", "obj", "/a~b", "a/b", "d", "v", "é", "obj"}
 	segKeyPool  = []string{"s0", "s1", "beta-10%-of-users%s", "s3", "s4", "s5", "s2", "", "S0"}
 	flagKeyPool = []string{"f0", "checkout-50%-discount%d", "f2", "f3", "f4", "f5", "f6", "f1", "", "F1"}
 	saltPool    = []string{"", "salt", "s2", strings.Repeat("S", 120), "sa.lt", "соль", "s\x00t", "%d.%s"}
@@ -109,7 +109,7 @@ func (g *gen) value(depth int) JV {
 		}
 		return a
 	case 12:
-		if depth > 1 {
+		if depth > 2 {
 			return jNum(7)
 		}
 		o := JV{K: 'o'}
@@ -224,7 +224,13 @@ func (g *gen) ref(withKind bool) WRef {
 	if !withKind {
 		return mkRef("lit", name)
 	}
-	switch r.intn(6) {
+	switch r.intn(8) {
+	case 6:
+		// three and four components: objects nested in objects
+		return mkRef("ref", "/obj/obj/"+pick(r, attrNames))
+	case 7:
+		esc := strings.NewReplacer("~", "~0", "/", "~1")
+		return mkRef("ref", "/"+esc.Replace(name)+"/"+esc.Replace(pick(r, attrNames))+"/"+esc.Replace(pick(r, attrNames))+pick(r, []string{"", "/a"}))
 	case 5:
 		// a literal attribute name together with a context kind (ldbuilders.ClauseWithKind,
 		// SegmentRuleBuilder.BucketBy): a name starting with '/' stays a name
